@@ -77,10 +77,9 @@ Definition kid (n : node) (i : nat) : node := nth i (n_kids n) nnone.
 
 (* replace the i-th child *)
 Fixpoint set_nth {X} (i : nat) (x : X) (l : list X) : list X :=
-  match l, i with
-  | [], _ => []
-  | _ :: r, O => x :: r
-  | y :: r, S j => y :: set_nth j x r
+  match i with
+  | O => match l with [] => [] | _ :: r => x :: r end
+  | S j => match l with [] => [] | y :: r => y :: set_nth j x r end
   end.
 Definition set_kid (n : node) (i : nat) (k : node) : node :=
   match n with Nd t ps ats d ks => Nd t ps ats d (set_nth i k ks) end.
